@@ -77,6 +77,29 @@ def channel_order(system):
     return out
 
 
+def _table_slots(obj, system, kind, names=("mesh_ar", "mesh_ad")):
+    """channel -> (vector, index) of the engine's per-channel tables"""
+    nq2 = 2 * len(system.network.reactions)
+    ns = len(system.network.species)
+    nc = system.space.size()
+    ar = obj.field(names[0])
+    ad = obj.field(names[1])
+    cont = contacts(system)
+    out = {}
+    for i in range(nc):
+        for q in range(nq2 // 2):
+            out[("R", i, q, "f")] = (ar, i * nq2 + 2 * q)
+            out[("R", i, q, "r")] = (ar, i * nq2 + 2 * q + 1)
+        for s in range(ns):
+            for c in cont[i]:
+                slot = c[5]
+                if kind == "grid":
+                    out[("D", i, s, slot)] = (ad, i * ns * 6 + s * 6 + slot)
+                else:
+                    out[("D", i, s, slot)] = (ad.elems[i], s * len(cont[i]) + slot)
+    return out
+
+
 def _tables(obj, system, kind, names=("mesh_ar", "mesh_ad")):
     """Read the engine's per-channel tables (internal layout, see module docstring)."""
     nq2 = 2 * len(system.network.reactions)
@@ -113,6 +136,8 @@ def gillespie_stage1(rec, netname, spacedesc, chem=None, fields=("state", "k", "
     ns, nc = len(system.network.species), system.space.size()
     react, diff, change, suff = propensities(system, st, X)
     facts = {"zero": set(), "system": system, "st": st, "kind": kind, "named_s": named_s, "X": X}
+    xprev = {(s_, i_): z3.Real("xprev_%d_%d" % (s_, i_)) for s_ in range(ns) for i_ in range(nc)}
+    react_prev, diff_prev, _c, _s = propensities(system, st, lambda s_, i_: xprev[(s_, i_)])
 
     def body(I):
         _assume_inputs(I, st, named_s)
@@ -122,7 +147,23 @@ def gillespie_stage1(rec, netname, spacedesc, chem=None, fields=("state", "k", "
         obj = algo(I)
         before = list(get_state(I, ns, nc))
         I.call_method(obj, "ComputePropensities")
-        return obj, before
+        first = dict(_tables(obj, system, kind))
+        sums1 = (list(obj.field("mesh_a0r").elems), list(obj.field("mesh_a0d").elems), obj.field("a0"))
+        flat1 = list(obj.field("mesh_ad").elems) if kind == "grid" else [x for v in obj.field("mesh_ad").elems for x in v.elems]
+        # second call from STALE table contents: the tables hold the specification values of an arbitrary EARLIER state X'
+        # (what a correct earlier call leaves behind - the invariant real histories satisfy), the state is X: "tables = spec(X)"
+        # afterwards means every entry and every sum is recomputed from the current state
+        for ch, (vec, idx) in _table_slots(obj, system, kind).items():
+            vec.elems[idx] = react_prev[(ch[1], ch[2], ch[3])] if ch[0] == "R" else diff_prev[(ch[1], ch[2], ch[3])][0]
+        for i in range(nc):
+            obj.field("mesh_a0r").elems[i] = sum((react_prev[(c[1], c[2], c[3])] for c in channel_order(system) if c[0] == "R" and c[1] == i), z3.RealVal(0))
+            obj.field("mesh_a0d").elems[i] = sum((diff_prev[(c[1], c[2], c[3])][0] for c in channel_order(system) if c[0] == "D" and c[1] == i), z3.RealVal(0))
+        obj.fields["a0"].set(sum((react_prev[(c[1], c[2], c[3])] if c[0] == "R" else diff_prev[(c[1], c[2], c[3])][0] for c in channel_order(system)), z3.RealVal(0)))
+        for v in xprev.values():
+            I.assume(v >= 0)
+        I.call_method(obj, "ComputePropensities")
+        second = dict(_tables(obj, system, kind))
+        return obj, before, first, sums1, flat1, second
 
     n = 0
     for pr in explore(program(), body, max_paths=32):
@@ -133,13 +174,17 @@ def gillespie_stage1(rec, netname, spacedesc, chem=None, fields=("state", "k", "
         rec.paths += 1
         I = pr.I
         _collect_safety(rec, I, desc)
-        obj, before = pr.value
+        obj, before, tab, sums1, flat_ad, second = pr.value
         after = get_state(I, ns, nc)
         same = all((a is b) or (not is_sym(a) and not is_sym(b) and a == b) or z3.eq(I.tosym(a), I.tosym(b)) for a, b in zip(before, after))
         rec.oblig("ComputePropensities leaves the state untouched", "holds" if same else "violated", "", 0, desc)
-        tab = _tables(obj, system, kind)
         for ch in channel_order(system):
             spec = react[(ch[1], ch[2], ch[3])] if ch[0] == "R" else diff[(ch[1], ch[2], ch[3])][0]
+            _prove(rec, I, "propensity %s == spec(current state) after a call that starts from the tables of an arbitrary earlier state" % (ch,), I.toreal(second[ch]) == spec, desc,
+                   lambda m, ch=ch: rec.violation("gillespie-stale-propensity:%s:%s" % (netname, ch[0]),
+                                                  "ComputePropensities does not recompute the propensity of channel %s from the state: a value left by an earlier step survives (%s)" % (ch, desc),
+                                                  {"structure": desc, "channel": list(ch), "model": str(m)[:600]},
+                                                  replayed=audit_finds(system, "gillespie", "illegal-event") or audit_finds(system, "gillespie", "noop-event") or _audit_sparse(system)))
             got = tab[ch]
             if not is_sym(got) and got == 0:
                 facts["zero"].add(ch)
@@ -148,7 +193,6 @@ def gillespie_stage1(rec, netname, spacedesc, chem=None, fields=("state", "k", "
                                                   "Gillespie propensity of channel %s differs from the master-equation value (%s)" % (ch, desc),
                                                   {"structure": desc, "channel": list(ch), "model": str(m)[:600]}, replayed=_replay_propensity(system, st, m, ch, kind)))
         # every table entry that is not a channel of the specification must be identically zero
-        flat_ad = obj.field("mesh_ad").elems if kind == "grid" else [x for v in obj.field("mesh_ad").elems for x in v.elems]
         n_spec_d = sum(1 for c in channel_order(system) if c[0] == "D")
         extra_entries = [x for x in flat_ad if not (not is_sym(x) and x == 0)]
         spec_nonzero = [tab[c] for c in channel_order(system) if c[0] == "D" and not (not is_sym(tab[c]) and tab[c] == 0)]
@@ -160,7 +204,8 @@ def gillespie_stage1(rec, netname, spacedesc, chem=None, fields=("state", "k", "
         else:
             rec.oblig("diffusion table has no entries beyond the neighbour relation", "holds", "", 0, desc)
         # partial sums
-        a0r, a0d = obj.field("mesh_a0r").elems, obj.field("mesh_a0d").elems
+        a0r, a0d = obj.field("mesh_a0r").elems, obj.field("mesh_a0d").elems      # after the second (stale-start) call
+        tab = second
         tot = z3.RealVal(0)
         ok = True
         for i in range(nc):
@@ -400,6 +445,11 @@ def tauleap_step(rec, netname, spacedesc, chem=None, fields=("state", "k", "D", 
         if initialize(I, kind, named_s) != 0:
             raise HarnessError("initialize failed")
         obj = algo(I)
+        # the event-count tables hold whatever an EARLIER step left there (arbitrary non-negative counts): the step must not depend on it
+        for ch, (vec, idx) in _table_slots(obj, system, kind, ("mesh_nr", "mesh_nd")).items():
+            v = I.fresh("stale_n", "int")
+            I.assume(v >= 0)
+            vec.elems[idx] = v
         before = list(get_state(I, ns, nc))
         n_ev = len(I.events)
         ret = I.call_fn("engineexport_iterate", [])
@@ -554,6 +604,24 @@ def audit_real(system, option, seeds=range(1, 13), steps=60, dt=0.015625, state=
                 if not ts[k] > ts[k - 1]:
                     anomalies.setdefault("time-not-increasing", {"seed": seed, "sample": k})
     return anomalies
+
+
+def _audit_sparse(system):
+    """replay for stale propensities: a species that runs out in a cell while others keep moving there; an impossible event
+    then shows up as a negative count (real build, per-iteration audit)"""
+    try:
+        ns, nc = len(system.network.species), system.space.size()
+        for first in range(ns):
+            st = [20.0] * (ns * nc)
+            for i in range(nc):
+                st[first * nc + i] = 0.0
+            st[first * nc] = 1.0
+            a = audit_real(system, "gillespie", seeds=range(1, 9), steps=1500, state=st)
+            if "negative-or-fractional" in a or "illegal-event" in a:
+                return True
+        return False
+    except Exception:
+        return False
 
 
 def audit_finds(system, option, kind, **kw):
